@@ -80,6 +80,10 @@ def store_ops():
             if v is not None:
                 ops.append(("set", k, i))
     ops += [("get_fit_params",), ("reopen",), ("bad_key",)]
+    # a write through a second object while a first one is open, followed
+    # by an unrelated read through the first
+    for k in ("weight_cp", "range_x", "model_key"):
+        ops.append(("set_via_other", k, 1))
     return ops
 
 
@@ -143,6 +147,14 @@ def store_transition(state, op):
         k, i = op[1], op[2]
         v = json.loads(json.dumps(STORE_DOMAIN[k][i]))
         pf[k] = v
+        want[SKEYS.index(k)] = i
+    elif op[0] == "set_via_other":
+        k, i = op[1], op[2]
+        v = json.loads(json.dumps(STORE_DOMAIN[k][i]))
+        other = Profile(path)
+        other[k] = v
+        pf["segment"]                 # unrelated read through the first
+        pf["rating regressor"] = pf["rating regressor"]
         want[SKEYS.index(k)] = i
     elif op[0] == "get_fit_params":
         d0 = json.load(open(path))
